@@ -7,7 +7,8 @@ sel="$*"
 for d in seeded/*/; do
   m=$(basename "$d"); p=${m%%-*}
   if [ -n "$sel" ] && ! echo " $sel " | grep -q " $p "; then continue; fi
-  out=$(lib/try_mutant.sh "/verif/$d/patch.diff" "$p" 2>&1)
+  c=$(python3 -c "import json,sys; print(' '.join(json.load(open(sys.argv[1])).get('checks',[sys.argv[2]])))" "$d/meta.json" "$p")
+  out=$(lib/try_mutant.sh "/verif/$d/patch.diff" $c 2>&1)
   n=$(echo "$out" | grep -c "^VIOLATION")
   nf=$(echo "$out" | grep "^VIOLATION" | grep -c "no-failing-input-found")
   if [ "$n" = 0 ]; then r=MISSED; elif [ "$n" = "$nf" ]; then r=obligation-only; else r=concrete; fi
